@@ -754,12 +754,16 @@ class ExprMixin:
     def ev_Call(self, n, env):
         fn = self.ev(n.func, env)
         if isinstance(fn, VRef) and fn.sort in ("Opaque", "Emitter"):
-            vals = []
+            vals, kws = [], {}
             for a in n.args:
                 vals.append(self.ev(a.value if isinstance(a, ast.Starred) else a, env))
             for k in n.keywords:
-                vals.append(self.ev(k.value, env))
-            return self.call(fn, vals, {}, n)
+                v = self.ev(k.value, env)
+                if k.arg is None:
+                    vals.append(v)
+                else:
+                    kws[k.arg] = v
+            return self.call(fn, vals, kws, n)
         args, kwargs = [], {}
         for a in n.args:
             if isinstance(a, ast.Starred):
